@@ -193,7 +193,7 @@ def verdict (cs : Case) : String :=
   let c : Cfg := { lockFirst := cs.lockFirst, fair := cs.fair, exec := progExec prog }
   let s0 := init cs.e0 inp scripts
   let pending := (cs.evs.qsort (fun a b => a.hi < b.hi)).toList
-  let (ok, st) := (lin c s0 pending 0).run { budget := 400000, best := 0, stuck := "" }
+  let (ok, st) := (lin c s0 pending 0).run { budget := 120000, best := 0, stuck := "" }
   if ok then "accepted"
   else if st.budget = 0 then "lin-budget"
   else s!"rejected after {st.best} of {pending.length} events at: {st.stuck}"
